@@ -94,6 +94,8 @@ def evaluate(cfg, ev, hung):
     c = Counter(e[1] for e in starts)
     dup = [i for i, n in c.items() if n > 1]
     if dup: f.append(f"C01: messages {dup} executed more than once")
+    ca = Counter(e[1] for e in acked); dupa = [i for i, n in ca.items() if n > 1]
+    if dupa: f.append(f"C02: the acknowledge callback of messages {dupa} was called more than once ({[ca[i] for i in dupa]} times)")
     finite = all(d < NEVER for d in durs)
     if returned is not None and stop is not None and finite and not N and stop_at >= 50.0 and max(durs) * backlog < stop_at * (A or backlog):
         never = [i for i in range(backlog) if i not in c]
